@@ -24,6 +24,15 @@ Definition der_encode_sig (r s : Z) : result bytes :=
 
 Definition node_val (nd : node) : value := match nd with Node _ _ v => v end.
 
+(* int.from_bytes(v, "big") for the Python value of a parsed node: bytes -> the number; the EMPTY list of a
+   constructed node without children -> 0 (int.from_bytes([]) == 0); a non-empty list of nodes / an OID -> TypeError *)
+Definition int_of_value (v : value) : result Z :=
+  match v with
+  | VBytes b => Ok (of_be b)
+  | VList [] => Ok 0
+  | _ => Err TypeE
+  end.
+
 (* parsed[0][2][0][2] and parsed[0][2][1][2] fed to int.from_bytes *)
 Definition der_decode_sig (der : bytes) : result (Z * Z) :=
   l <- parse_asn1_top der ;;
@@ -32,10 +41,9 @@ Definition der_decode_sig (der : bytes) : result (Z * Z) :=
   | top :: _ =>
     match node_val top with
     | VList (n0 :: n1 :: _) =>
-      match node_val n0, node_val n1 with
-      | VBytes rb, VBytes sb => Ok (of_be rb, of_be sb)
-      | _, _ => Err TypeE
-      end
+      r <- int_of_value (node_val n0) ;;
+      s <- int_of_value (node_val n1) ;;
+      Ok (r, s)
     | VList _ => Err IndexE
     | VBytes [] => Err IndexE
     | VBytes _ => Err TypeE
